@@ -164,29 +164,39 @@ func verifMain() {
 }
 '''
 
-DIRECTIVE_GLOBALS = r'''package directive
+def _pkg_source(repo, rel):
+    out = ''
+    d = os.path.join(repo, rel)
+    for f in sorted(os.listdir(d)):
+        if f.endswith('.go') and not f.endswith('_test.go'):
+            out += open(os.path.join(d, f), errors='replace').read() + '\n'
+    return out
 
-import "fmt"
 
-// VerifGlobals is a read-only dump of the package-level state a directive run can carry over.
-func VerifGlobals() string {
-	s := fmt.Sprintf("clean=%d:", len(regCleanStakedRules))
-	for _, r := range regCleanStakedRules {
-		s += fmt.Sprintf("%x,", len(r.Regex.String()))
-	}
-	return s
-}
-'''
+def globals_dumps(repo):
+    """Go sources of the read-only package-state dumps, generated against the CURRENT tree: a package-level variable is
+    dumped only if the tree still declares it (a refactoring that renames or removes one must not break every check:
+    the dump then says `?`, the state key gets coarser and the state-keyed search of C02 simply stops earlier)."""
+    dsrc = _pkg_source(repo, 'pkg/prebuild/directive')
+    asrc = _pkg_source(repo, 'pkg/aa')
 
-AA_GLOBALS = r'''package aa
-
-import "fmt"
-
-// VerifGlobals is a read-only dump of the package-level state of package aa.
-func VerifGlobals() string {
-	return fmt.Sprintf("indent=%d,inHeader=%v", IndentationLevel, inHeader)
-}
-'''
+    def declared(src, name):
+        return re.search(r'^(var\s+|\t)%s\b[^\n]*=' % re.escape(name), src, re.M) is not None
+    dparts = []
+    if declared(dsrc, 'regCleanStakedRules'):
+        # %v prints the pattern of an exported *regexp.Regexp field (Stringer); only the length and a digest are kept
+        dparts.append('fmt.Sprintf("clean=%d:%x", len(regCleanStakedRules), sha256.Sum256([]byte(fmt.Sprintf("%v", regCleanStakedRules))))[:40]')
+    else:
+        dparts.append('"clean=?"')
+    directive = ('package directive\n\nimport (\n\t"crypto/sha256"\n\t"fmt"\n)\n\nvar _ = sha256.Sum256\n\n'
+                 '// VerifGlobals is a read-only dump of the package-level state a directive run can carry over.\n'
+                 'func VerifGlobals() string {\n\treturn fmt.Sprint(%s)\n}\n' % ', ",", '.join(dparts))
+    aparts = []
+    aparts.append('fmt.Sprintf("indent=%d", IndentationLevel)' if declared(asrc, 'IndentationLevel') else '"indent=?"')
+    aparts.append('fmt.Sprintf("inHeader=%v", inHeader)' if declared(asrc, 'inHeader') else '"inHeader=?"')
+    aa = ('package aa\n\nimport "fmt"\n\n// VerifGlobals is a read-only dump of the package-level state of package aa.\n'
+          'func VerifGlobals() string {\n\treturn fmt.Sprint(%s)\n}\n' % ', ",", '.join(aparts))
+    return directive, aa
 
 
 def goroot():
@@ -227,6 +237,7 @@ def make(outdir, repo=None, with_runtime=True, with_main=True, extra_replace=Non
         p = os.path.join(outdir, 'main.go'); open(p, 'w').write(text); rep[mainp] = p
         p = os.path.join(outdir, 'verif_main.go'); open(p, 'w').write(VERIF_MAIN)
         rep[os.path.join(repo, 'cmd/prebuild/verif_main.go')] = p
+        DIRECTIVE_GLOBALS, AA_GLOBALS = globals_dumps(repo)
         p = os.path.join(outdir, 'directive_globals.go'); open(p, 'w').write(DIRECTIVE_GLOBALS)
         rep[os.path.join(repo, 'pkg/prebuild/directive/verif_globals.go')] = p
         p = os.path.join(outdir, 'aa_globals.go'); open(p, 'w').write(AA_GLOBALS)
